@@ -9,6 +9,7 @@ pub const OP_TEXT: u8 = 1;
 pub const OP_BINARY: u8 = 2;
 pub const OP_CLOSE: u8 = 8;
 pub const OP_PING: u8 = 9;
+pub const OP_PONG: u8 = 10;
 
 /// Write one masked (client to server) frame.
 pub async fn write_frame<W: AsyncWrite + Unpin>(w: &mut W, opcode: u8, fin: bool, payload: &[u8], mask: [u8; 4]) -> std::io::Result<()> {
@@ -30,14 +31,23 @@ pub async fn write_frame<W: AsyncWrite + Unpin>(w: &mut W, opcode: u8, fin: bool
     w.flush().await
 }
 
-/// Write a data message, split into `pieces` fragments at the given byte offsets.
-pub async fn write_message<W: AsyncWrite + Unpin>(w: &mut W, opcode: u8, payload: &[u8], cuts: &[usize], mask: [u8; 4]) -> std::io::Result<()> {
+/// Write a data message, split into fragments at the given byte offsets. `control`: after the fragment
+/// with that index (if it is not the last one) a control frame with that opcode (ping / unsolicited pong)
+/// is written - control frames may be injected in the middle of a fragmented message (RFC 6455, 5.4).
+pub async fn write_message<W: AsyncWrite + Unpin>(w: &mut W, opcode: u8, payload: &[u8], cuts: &[usize], mask: [u8; 4], control: Option<(usize, u8)>) -> std::io::Result<()> {
     let mut start = 0;
     let mut first = true;
+    let mut index = 0usize;
     for &cut in cuts.iter().chain(std::iter::once(&payload.len())) {
         let cut = cut.min(payload.len()).max(start);
         let last = cut == payload.len();
         write_frame(w, if first { opcode } else { OP_CONT }, last, &payload[start..cut], mask).await?;
+        if let Some((after, op)) = control {
+            if after == index && !last {
+                write_frame(w, op, true, b"c", mask).await?;
+            }
+        }
+        index += 1;
         first = false;
         start = cut;
         if last {
